@@ -9,7 +9,6 @@ N0 = M0 + '.halts.len()'
 UNIT = {
     'name': 'startwait',
     'property': 'C13',
-    'controls': 'auto',
     'rlimit': 60,
     'verus_args': ['--edition=2024'],
     'vacuity_floor': 1,
